@@ -104,7 +104,9 @@ impl Method for Vidya {
 		// opposite signs (`up_sum == -dn_sum != 0`) cannot lead to a division by zero
 		let sum = self.up_sum + self.dn_sum;
 		self.last_output = if sum != 0. {
-			let cmo = ((self.up_sum - self.dn_sum) / sum).abs();
+			// `|up - dn| <= up + dn` for non-negative sums; rounding residue of either sign in the never-recomputed
+			// sums must not push the smoothing factor over `f` (the output would leave the range of the inputs)
+			let cmo = ((self.up_sum - self.dn_sum) / sum).abs().min(1.0);
 			let f_cmo = self.f * cmo;
 			input.mul_add(f_cmo, (1.0 - f_cmo) * self.last_output)
 		} else {
